@@ -90,6 +90,15 @@ pub fn gen_c01(out: &mut dyn Write, thorough: bool, seed: u64) {
                 writeln!(out, "H {CFG} {mt}^00!{}^00 Fraw:{},pred:{first},pred:0,obs:SB,spec:0 c01", m2.to_text(), hexs(&text)).unwrap();
                 continue;
             }
+            // predicted, relabelled by hand through `boundaries_mut` (unknowns included), predicted again by the same predictor
+            if r.chance(1, 6) {
+                let n = text.chars().count();
+                if n >= 2 {
+                    let labels: String = (0..n - 1).map(|_| *r.pick(&['N', 'W', 'U', 'U'])).collect();
+                    writeln!(out, "H {CFG} {mt}^00 Fraw:{},pred:0,setbs:{labels},pred:0,obs:SB,spec:0 c01", hexs(&text)).unwrap();
+                    continue;
+                }
+            }
             let pre = match r.below(3) {
                 0 => format!("Fraw:{}", hexs(&text)),
                 1 => {
@@ -132,6 +141,52 @@ pub fn gen_c01(out: &mut dyn Write, thorough: bool, seed: u64) {
         for t in ["ああ", "あああああ", "漢あああ漢", "あア", "東京都ああああああああ"] {
             writeln!(out, "H {CFG} {mt}^00 Fraw:{},pred:0,obs:SB,spec:0 c01", hexs(t)).unwrap();
         }
+    }
+    // the edge of the i32 range (`C01_no_overflow`): models whose mass |bias| + Σ|weights| is exactly 2^31 − 1 (or a little
+    // less), on texts where one boundary collects every weight of every entry: no sum may overflow (the harness is built with
+    // overflow checks), and the scores must still be the linear model's.  Both signs, windows 1–4 (cached and automaton type
+    // scorer), one kind at a time and all kinds together with suffix-related entries (merged coordinates add up at build time)
+    for i in 0..(if thorough { 192 } else { 48 }) {
+        let w = 1 + (i % 4) as u8;
+        let n1 = 2 * w as usize;
+        let sign: i64 = if (i / 4) % 2 == 0 { 1 } else { -1 };
+        let total: i64 = i32::MAX as i64 - [0, 0, 1, 17][(i / 8) % 4];
+        let mut m = AbsModel { char_w: w, type_w: w, ..Default::default() };
+        let mut left = total;
+        let take = |share: i64, n: usize, left: &mut i64| -> Vec<i32> {
+            let q = (share / n as i64).min(*left / n as i64);
+            *left -= q * n as i64;
+            vec![(sign * q) as i32; n]
+        };
+        match (i / 32) % 6 {
+            0 => m.char_ngrams.push(("あ".into(), take(total, n1, &mut left))),
+            1 => m.type_ngrams.push((vec![3], take(total, n1, &mut left))),
+            2 => m.dict.push(("ああ".into(), take(total, 3, &mut left), String::new())),
+            3 => {
+                // suffix chain: あ, ああ (and the word ああ): the merged vector of ああ carries all three
+                m.char_ngrams.push(("あ".into(), take(total / 3, n1, &mut left)));
+                m.char_ngrams.push(("ああ".into(), take(total / 3, n1 - 1, &mut left)));
+                m.dict.push(("ああ".into(), take(total / 3, 3, &mut left), String::new()));
+            }
+            4 => {
+                m.type_ngrams.push((vec![3], take(total / 2, n1, &mut left)));
+                m.type_ngrams.push((vec![3, 3], take(total / 2, n1 - 1, &mut left)));
+            }
+            _ => {
+                m.char_ngrams.push(("あ".into(), take(total / 5, n1, &mut left)));
+                m.char_ngrams.push(("ああ".into(), take(total / 5, n1 - 1, &mut left)));
+                m.type_ngrams.push((vec![3], take(total / 5, n1, &mut left)));
+                m.type_ngrams.push((vec![3, 3], take(total / 5, n1 - 1, &mut left)));
+                m.dict.push(("あ".into(), take(total / 5, 2, &mut left), String::new()));
+            }
+        }
+        m.bias = (sign * left) as i32;   // the remainder: the mass is exactly `total`
+        let mt = m.to_text();
+        for len in [2usize, n1 + 2, 2 * n1 + 3] {
+            let t: String = std::iter::repeat('あ').take(len).collect();
+            writeln!(out, "H {CFG} {mt}^00 Fraw:{},pred:0,obs:SB,spec:0 c01", hexs(&t)).unwrap();
+        }
+        writeln!(out, "H {CFG} {mt}^00 Fraw:{},pred:0,obs:SB,spec:0 c01", hexs("漢あああああ漢ああ")).unwrap();
     }
     // dictionaries as training produces them (words of one length share one weight vector; lengths around 8)
     for _ in 0..(if thorough { 100 } else { 12 }) {
@@ -416,6 +471,33 @@ pub fn gen_c06(out: &mut dyn Write, thorough: bool, seed: u64) {
             let token = mm.tag_models[0].token.clone();
             let text = format!("{}{}{}", alpha[0], token, alpha[alpha.len() - 1]);
             writeln!(out, "H {CFG} {}^1{store} Fraw:{},pred:0,setb:0:W,fill,obs:BKGIC,tspec:0 c06", mm.to_text(), hexs(&text)).unwrap();
+        }
+        // candidate counts around multiples of the fixed vector length (8) whose tag n-gram weights are zero from some position
+        // on (as trained models are: most classes get no weight from most n-grams), the decisive weight just before the zeros
+        if r.chance(1, 8) && !m.tag_models.is_empty() {
+            let mut mm = m.clone();
+            let n_c = *r.pick(&[9usize, 15, 16, 17, 18, 23, 24, 25, 33]);
+            let k = (*r.pick(&[1usize, 7, 8, 9, 10, 15, 16, 17, 20])).min(n_c - 1);   // non-zero entries: the first k of the new classes
+            {
+                let tm = &mut mm.tag_models[0];
+                tm.tags.push((0..n_c).map(|j| format!("S{j:02}")).collect());
+                tm.bias.extend((0..n_c).map(|j| (j % 5) as i32 - 2));
+                let mut first = true;
+                for ws in tm.char_ngrams.iter_mut().map(|g| &mut g.weights).chain(tm.type_ngrams.iter_mut().map(|g| &mut g.weights)) {
+                    for w in ws.iter_mut() {
+                        // the first n-gram decides: its largest weight sits on the last non-zero position
+                        w.1.extend((0..n_c).map(|j| if j >= k { 0 } else if first && j == k - 1 { 50 } else { (j % 3) as i32 - 1 }));
+                        first = false;
+                    }
+                }
+            }
+            let token = mm.tag_models[0].token.clone();
+            for _ in 0..2 {
+                let text = format!("{}{}{}", gen_text_tags(&mut r, &mm, &alpha, 4), token, gen_text_tags(&mut r, &mm, &alpha, 4));
+                let n = text.chars().count();
+                writeln!(out, "H {CFG} {}^1{store} Fraw:{},pred:0,fill,obs:BKGIC,tspec:0 c06", mm.to_text(), hexs(&text)).unwrap();
+                writeln!(out, "H {CFG} {}^1{store} Fraw:{},pred:0,setbs:{},fill,obs:BKGIC,tspec:0 c06", mm.to_text(), hexs(&text), "W".repeat(n - 1)).unwrap();
+            }
         }
         // more than eight candidates with suffix-related tag n-grams at one relative position
         if r.chance(1, 12) && alpha.len() >= 2 {
